@@ -5,6 +5,7 @@ import (
 	"go/constant"
 	"go/token"
 	"go/types"
+	"reflect"
 	"sort"
 	"strings"
 
@@ -53,6 +54,7 @@ func affine(f *eng.Fn, e ast.Expr) string {
 
 func runC11(p *eng.Prog, r *eng.Report, tier string) {
 	c := &cx{p, r, tier}
+	c11ElementIsCharData(c, "C11.14")
 	// ---- C11.1 who may write ---------------------------------------------------
 	allowed := map[string]bool{"jid.New": true, "jid.JID.WithLocal": true, "jid.JID.WithDomain": true, "jid.JID.WithResource": true, "jid.JID.Bare": true, "jid.JID.Domain": true,
 		"jid.(*JID).UnmarshalXML": true, "jid.(*JID).UnmarshalXMLAttr": true, "jid.NewUnsafe": true}
@@ -971,4 +973,44 @@ func c11ChecksSeeTheEnforcedBuffer(c *cx, id string) {
 		}
 	}
 	c.r.Floor(id, "PRECIS Append results in the jid constructors", n, 4)
+}
+
+// c11ElementIsCharData (C11.14): JID.MarshalXML writes the address as one
+// CharData token, which the encoder escapes; the element decoder therefore
+// parses the element's character data (entity references resolved), i.e. the
+// field of its decode target tagged `xml:",chardata"` - not the inner XML
+// (escaped text) and not an attribute.
+func c11ElementIsCharData(c *cx, id string) {
+	f := c.fn(id, "jid", "(*JID).UnmarshalXML")
+	if f == nil {
+		return
+	}
+	n := 0
+	for _, cl := range f.Calls("jid.Parse") {
+		n++
+		tag, why := "", "the argument of Parse is not a field of the decode target"
+		if sel, ok := ast.Unparen(cl.Args[0]).(*ast.SelectorExpr); ok {
+			if st, ok := f.Info().TypeOf(sel.X).Underlying().(*types.Struct); ok {
+				for i := 0; i < st.NumFields(); i++ {
+					if st.Field(i).Name() == sel.Sel.Name {
+						tag = reflect.StructTag(st.Tag(i)).Get("xml")
+						why = "the parsed field is tagged xml:\"" + tag + "\""
+					}
+				}
+			}
+		}
+		c.r.Check(id, f, "address parsed from the element's character data", "T: the encoder writes the address as CharData (escaped by the XML encoder); the decoder parses the field tagged `xml:\",chardata\"` (entity references resolved)", cl.Pos(), tag == ",chardata", why+": an address with & < > ' or \" does not survive the element round trip")
+	}
+	c.r.Floor(id, "Parse calls in JID.UnmarshalXML", n, 1)
+	m := c.fn(id, "jid", "JID.MarshalXML")
+	if m == nil {
+		return
+	}
+	okm := false
+	for _, cl := range m.Calls("encoding/xml.Encoder.EncodeToken") {
+		if strings.HasPrefix(m.Norm(cl.Args[0], nil), "conv:encoding/xml.CharData(jid.JID.String[") {
+			okm = true
+		}
+	}
+	c.r.Check(id, m, "address written as character data", "T: MarshalXML writes xml.CharData(j.String()) between the start and end token", m.Pos(), okm, "no EncodeToken(xml.CharData(j.String()))")
 }
